@@ -11,17 +11,19 @@
   OBLIGATION c01_nan_nonnull_witness
   OBLIGATION c01_data_full_needs_validity
   OBLIGATION c01_repeated_key_error_witness
+  OBLIGATION c01_repeated_key_error_repaired_example
   OBLIGATION c01_collect_partial
   OBLIGATION c01_collect_spread_once
   OBLIGATION c01_data_partial_nodup
   OBLIGATION c01_data_partial_nodup_example
+  OBLIGATION c01_create_value_object_groups
   OPEN c01_data_mergeable_full
 
   `c01_data_full` (the statement as first written, without hypotheses) is REFUTED
-  (`c01_data_full_needs_validity`); validity alone does not rescue it
-  (`c01_repeated_key_error_witness`).  What holds: `c01_data_partial_nodup` (all worlds, faults
-  included, documents without repeated response keys); open: the merge lemma for repeated keys in
-  error-free executions (`c01_data_mergeable_full`).
+  (`c01_data_full_needs_validity`); for the executor as found validity alone did not rescue it
+  (`c01_repeated_key_error_witness`, toggle `mergeKeepsPartialOnNull`).  What holds:
+  `c01_data_partial_nodup` (all worlds, faults included, documents without repeated response keys);
+  open: the restated full statement `c01_data_mergeable_full` (repeated keys — the merge lemma).
 -/
 import AGV.Lemmas.ExecStatic
 import AGV.Lemmas.ExecStaticData
@@ -32,8 +34,7 @@ open AGV.Core AGV.Model.ExecStatic AGV.Lemmas.ExecStatic AGV.Lemmas.ExecStaticDa
 /-- The statement as first written: for every schema, document, variables and data world, the data
     of the executor model with no defect equals the data of the specification's execution
     algorithm.  It carries no validity hypothesis and is FALSE (`c01_data_full_needs_validity`
-    below); with validity it is still false in worlds with faults
-    (`c01_repeated_key_error_witness`).  Proved instead: `c01_data_partial_nodup`; open:
+    below).  Proved instead: `c01_data_partial_nodup`; restated with hypotheses and open:
     `c01_data_mergeable_full`.  The equation itself is still checked per generated case by the judge. -/
 def c01_data_full : Prop :=
   ∀ (S : Schema) (d : Doc) (op : Option String) (vars : List (String × GValue)) (w : World),
@@ -44,10 +45,10 @@ def c01_data_full : Prop :=
 /-- "exactly the collected response keys in document order": whatever the field futures
     returned, the object built by `create_value_object` / `insert_value` has each response key
     once, in order of first occurrence — for every list of key/value pairs and every merge depth. -/
-theorem c01_key_order (fuel : Nat) (kvs : List (String × GValue)) :
-    ∃ fs, createValueObject fuel kvs = .obj fs ∧ fs.map (·.1) = newKeys [] (kvs.map (·.1)) := by
+theorem c01_key_order (D : Defects) (fuel : Nat) (kvs : List (String × GValue)) :
+    ∃ fs, createValueObject D fuel kvs = .obj fs ∧ fs.map (·.1) = newKeys [] (kvs.map (·.1)) := by
   refine ⟨_, rfl, ?_⟩
-  simpa using keys_foldl_insertKV (merge fuel) kvs []
+  simpa using keys_foldl_insertKV (merge D.mergeKeepsPartialOnNull (4 * fuel)) kvs []
 
 /-- "a position whose type is non-null never holds null": completing any resolver result
     against a non-null type gives a non-null value or propagates — for every type, result,
@@ -147,15 +148,19 @@ theorem c01_data_full_needs_validity : ¬ c01_data_full := by
 /-- `{ x: obj { a }  x: obj { f } }` with `f: Float!` failing (NaN) -/
 def docRepeatErr : Doc := { ops := [{ ty := .query, name := none, vars := [], dirs := [], sels := [Sel.field (some "x") "obj" [] [] [selA] p0, Sel.field (some "x") "obj" [] [] [selF] p0] }], frags := [] }
 
-/-- Validity is not enough either: for a VALID document in which a response key occurs twice and
-    the later occurrence is nulled by an error propagating out of its sub-selection, the executor
-    model (like `merge_value`, whose `_ => {}` arm keeps the earlier value) answers
-    `{"x": {"a": 5}}` while the specification (one execution of the merged selection set) answers
-    `{"x": null}`.  Confirmed on the real executor (replays/C01/repeated-key-error.case). -/
+/-- Validity alone was not enough for the executor as found: for a VALID document in which a response
+    key occurs twice and the later occurrence is nulled by an error propagating out of its
+    sub-selection, `merge_value`'s `_ => {}` arm keeps the earlier partial object — the pinned executor
+    answers `{"x": {"a": 5}}` where the specification (one execution of the merged selection set)
+    answers `{"x": null}`.  Reproduced on the real executor (corpus/C03/main-repeated-key-error.case);
+    toggle `mergeKeepsPartialOnNull`, finding C03-repeated-key-error-keeps-partial-object. -/
 theorem c01_repeated_key_error_witness :
-    (run Defects.none S0 docRepeatErr none [] w0 10).val = some (.obj [("x", .obj [("a", .int 5)])]) ∧
+    (run { mergeKeepsPartialOnNull := true } S0 docRepeatErr none [] w0 10).val = some (.obj [("x", .obj [("a", .int 5)])]) ∧
     (AGV.Spec.Exec.run S0 docRepeatErr none [] w0 10).val = some (.obj [("x", .null)]) := by
   constructor <;> rfl
+
+theorem c01_repeated_key_error_repaired_example :
+    (run Defects.none S0 docRepeatErr none [] w0 10).val = (AGV.Spec.Exec.run S0 docRepeatErr none [] w0 10).val := by rfl
 
 -- ------------------------------------------------------------------ stage 1: field collection
 
@@ -239,43 +244,30 @@ example : (run Defects.none Ex.S1 Ex.doc1 none [] Ex.w1 10).val = some (.obj [("
 
 -- ------------------------------------------------------------------ stage 3 (open): repeated response keys
 
-def listDepth : TypeRef → Nat
-  | .named _ => 0
-  | .list t => listDepth t + 1
-  | .nonNull t => listDepth t
+/-- first step of the merge lemma, for EVERY list of field results (no shape hypothesis): the object
+    built by `create_value_object`/`insert_value` is "group the results by response key in order of
+    first occurrence, then fold `merge_value` over each key's values in occurrence order" — the model's
+    counterpart of the specification's grouping of field occurrences -/
+theorem c01_create_value_object_groups (D : Defects) (fuel : Nat) (kvs : List (String × GValue)) :
+    createValueObject D fuel kvs =
+      .obj ((groupKV kvs).map (fun g => (g.1, mergeAll (merge D.mergeKeepsPartialOnNull (4 * fuel)) g.2))) :=
+  createValueObject_group D fuel kvs
 
-/-- like `noRepeatedKeys`, but a response key may repeat when all its occurrences name the same field
-    with the same arguments (FieldsInSetCanMerge, per runtime type); the sub-selections are then
-    checked merged.  `merge_value` of the model is one list level deep, hence `listDepth ≤ 1` for
-    repeated keys. -/
-def mergeableKeys (c : Model.ExecStatic.Ctx) : Nat → String → String → List Sel → Bool
-  | 0, _, _, _ => true
-  | fuel + 1, st, rt, sels =>
-    decide (spreads c.d (fuel + 1) sels).Nodup &&
-    (AGV.Spec.Exec.group (Model.ExecStatic.collect c rt (fuel + 1) st sels)).all (fun g =>
-      match g.2 with
-      | [] => true
-      | o :: rest =>
-        rest.all (fun o' => o'.name = o.name && o'.args == o.args) &&
-        (o.name = "__typename" ||
-          match c.S.field? rt o.name with
-          | none => false
-          | some fd =>
-            (rest.isEmpty || decide (listDepth fd.ty ≤ 1)) &&
-            (c.S.possibleTypes fd.ty.base).all (fun ty =>
-              mergeableKeys c fuel fd.ty.base ty (g.2.map (·.sels)).flatten)))
-
-/-- OPEN (the merge lemma): `c01_data_partial_nodup` with repeated response keys allowed, for
-    executions without field errors.  The error-free hypothesis cannot be dropped
-    (`c01_repeated_key_error_witness`).  Needs: `collect_append`, and associativity/idempotence of
-    `merge` on values that are completions of one resolver result (a SameShape invariant). -/
+/-- OPEN — the full statement, restated with the hypotheses found necessary (validity in the sense
+    of `mergeableKeys`: every collected field exists, occurrences of one response key name the same
+    field with the same arguments, recursively on the merged sub-selections; a consistent schema;
+    directives that do not act; no `Int` leaf for a `Float` field): the executor model without defects
+    returns the specification's data, in every world (faults included — with the repaired
+    `merge_value`; the pinned one needs error-free executions, `c01_repeated_key_error_witness`).
+    `c01_data_partial_nodup` is the case of pairwise distinct keys.  Missing: the merge lemma
+    (`collect_append`, `c01_create_value_object_groups`, then associativity/idempotence of `merge` on
+    values completed from one resolver result — a SameShape invariant). -/
 def c01_data_mergeable_full : Prop :=
   ∀ (S : Schema) (d : Doc) (opName : Option String) (raw : List (String × GValue)) (w : World) (fuel : Nat),
     (∀ op, AGV.Spec.Exec.selectOp d opName = some op →
       IsObj S (rootOf S op) ∧ DataHyps (runCtx S d op raw w) ∧
       selsInert (AGV.Spec.Exec.coerceVars op.vars raw) op.sels = true ∧
       mergeableKeys (runCtx S d op raw w) fuel (rootOf S op) (rootOf S op) op.sels = true) →
-    (AGV.Spec.Exec.run S d opName raw w fuel).errs = [] →
     (Model.ExecStatic.run Defects.none S d opName raw w fuel).val = (AGV.Spec.Exec.run S d opName raw w fuel).val
 
 end AGV.Props.C01
